@@ -270,6 +270,10 @@ def rule_extra_samples_same_slot(eng, rep, rule="C03-3c.extra-samples-go-to-the-
         if sliced is not None:
             loops = [(sliced[0], sliced[1])]
         if buf is None or not loops:
+            in_while = any(kind == "while" and node in cfg.loop_nodes(h_) for (h_, kind, _st) in cfg.loops)
+            if in_while and buf is not None:
+                rep.unknown(rule, site, "the extra samples `%s` are added by a while loop: its trip count is not decided by this rule" % short(rarg))
+                continue
             rep.bad(rule, site, "%s|extra-sample-shape|%s" % (fi.fid, short(rarg, 25)), "the extra sample `%s` is not row i of an evaluation buffer inside `for i in range(1, samples run)`" % short(rarg))
             continue
         h, st = loops[-1]
@@ -819,7 +823,12 @@ def rule_extra_samples_are_all_added(eng, rep, rule="C03-9b.every-sample-after-t
                 if p is not None and len(p) > 1:
                     bad = p
                     break
-            if not heads or bad is not None:
+            in_while = [c for c in eng.calls_in(fi) if any(t.fid == "model.Model.add_new_sample" for t in c.targets)
+                        and any(kind == "while" and cfg.cfg_node(c.node) in cfg.loop_nodes(h_) for (h_, kind, _s) in cfg.loops)
+                        and any(isinstance(a, ast.Subscript) and isinstance(a.value, ast.Name) and a.value.id == R for a in list(c.node.args) + [kw.value for kw in c.node.keywords])]
+            if (not heads or bad is not None) and in_while:
+                rep.unknown(rule, site, "samples of `%s` are added by a while loop, whose coverage of rows 1.. this rule does not decide" % R)
+            elif not heads or bad is not None:
                 rep.bad(rule, site, "%s|extra-samples-not-added|%s" % (fi.fid, short(call.func, 30)),
                         "`%s` stores the first sample of `%s` only and %s: the other samples that were run are never averaged in"
                         % (short(call, 60), R, "no loop `for i in range(1, ..): add_new_sample(.., %s[i, :])` exists in this function" % R if not heads else "a path to the end of the function / the next evaluation avoids that loop"),
